@@ -238,6 +238,43 @@ pub(crate) mod verif_probe {
                 let vv = v.clone();
                 Some(rt.block_on(async move { login(vv).await }))
             }
+            "show_clients" => {
+                // clients registered in the real registry with given states and counters; SHOW CLIENTS through the real handle_admin
+                let rt = tokio::runtime::Builder::new_multi_thread().worker_threads(2).enable_all().build().unwrap();
+                let v = v.clone();
+                Some(rt.block_on(async move {
+                    let mut regs = vec![];
+                    for c in v["clients"].as_array().unwrap() {
+                        let id = c["cid"].as_i64().unwrap() as i32;
+                        let s = Arc::new(crate::stats::ClientStats::new(id, c["app"].as_str().unwrap(), c["user"].as_str().unwrap(), c["pool"].as_str().unwrap(), tokio::time::Instant::now()));
+                        s.register(s.clone());
+                        match c["state"].as_str().unwrap() { "active" => s.active(), "waiting" => s.waiting(), _ => s.idle() }
+                        s.transaction_count.store(c["tx"].as_u64().unwrap(), std::sync::atomic::Ordering::Relaxed);
+                        s.query_count.store(c["q"].as_u64().unwrap(), std::sync::atomic::Ordering::Relaxed);
+                        s.error_count.store(c["err"].as_u64().unwrap(), std::sync::atomic::Ordering::Relaxed);
+                        regs.push(s);
+                    }
+                    let map: ClientServerMap = Arc::new(parking_lot::Mutex::new(HashMap::new()));
+                    let mut out: Vec<u8> = vec![];
+                    let r = crate::admin::handle_admin(&mut out, crate::messages::simple_query("SHOW CLIENTS"), map).await;
+                    for s in regs.iter() { s.disconnect(); }
+                    if r.is_err() { return json!({"error": format!("handle_admin: {:?}", r)}); }
+                    let mut rows = vec![]; let mut i = 0usize;
+                    while i + 5 <= out.len() {
+                        let ln = i32::from_be_bytes([out[i + 1], out[i + 2], out[i + 3], out[i + 4]]) as usize;
+                        if out[i] == b'D' {
+                            let body = &out[i + 5..i + 1 + ln];
+                            let n = u16::from_be_bytes([body[0], body[1]]) as usize; let mut j = 2; let mut cols = vec![];
+                            for _ in 0..n { let l = i32::from_be_bytes([body[j], body[j + 1], body[j + 2], body[j + 3]]) as usize; j += 4;
+                                            cols.push(String::from_utf8_lossy(&body[j..j + l]).to_string()); j += l; }
+                            cols.truncate(8);
+                            rows.push(cols);
+                        }
+                        i += 1 + ln;
+                    }
+                    json!({"rows": rows, "want": v["want"]})
+                }))
+            }
             "cancel_conn_stats" => {
                 // a client is registered in the statistics the way Client::handle registers it; a CancelRequest naming its process id (wrong key: the
                 // request is dropped silently) is served the way client_entrypoint serves it -- Client::cancel, handle(), drop.  Still listed?
